@@ -4,6 +4,7 @@ import RgVerif.Spec.GlobDoc
 import RgVerif.Lemmas.GlobDocSimple
 import RgVerif.Lemmas.GlobDocStar
 import RgVerif.Lemmas.GlobDocClass
+import RgVerif.Lemmas.GlobDocAlt
 /-
 C12 — a glob set answers exactly like its member globs; a glob matches exactly when the documented
 syntax says so.  Only the deciding statements live here; proofs are in `Lemmas/Glob*.lean`.
@@ -153,34 +154,43 @@ theorem tokens_mean_documented (o : Opts) (ts : List Tok) (hts : ∀ t ∈ ts, s
 /-- the part of the documented grammar for which `C12_doc_partial` is proved: literals, `?`, single `*`, `\x`
 escapes (or a literal backslash), and `**` as a whole component in its three positions — i.e. globs
 [`**/`] S₀ (`/**/` Sᵢ)* [`/**`] with wildcard segments Sᵢ, and the glob `**` —, or globs made of wildcard runs and
-bracket classes (`[ab]`, `[a-c]`, `[!…]`, `[^…]`, `]` first, `-` first or last) -/
-def docGuard (be : Bool) (g : List Nat) : Bool := simpleGlob be g || okStarGlob be g || okClassGlob be g
+bracket classes (`[ab]`, `[a-c]`, `[!…]`, `[^…]`, `]` first, `-` first or last), or globs with one level of
+alternates `{a,b}` whose branches and surroundings are wildcard runs -/
+def docGuard (o : Opts) (g : List Nat) : Bool :=
+  simpleGlob o.be g || okStarGlob o.be g || okClassGlob o.be g || okAltGlob o g
 
 /-- **C12_doc** (partial, guard `docGuard`; all four option flags): the glob is accepted, lies in the documented
 grammar, and its regex matches a path exactly when the documented syntax says so — `?` is one byte and `*` any
 run of bytes, neither crossing `/` under `literal_separator`; `**/` at the start matches nothing or anything
 ending in `/`, `/**/` matches `/` or `/…/`, a final `/**` matches `/` and everything after it, `**` alone
 everything; a class matches exactly its listed characters and ranges (the others when negated; never changed
-by `literal_separator`); ASCII case folding under `case_insensitive`, also inside classes; `\x` is `x` under `backslash_escape` and a literal
+by `literal_separator`); `{a,b}` matches `a` or `b`, an empty branch counting only under `empty_alternates`;
+ASCII case folding under `case_insensitive`, also inside classes; `\x` is `x` under `backslash_escape` and a literal
 backslash otherwise.  For all globs of that grammar and all byte paths. -/
-theorem C12_doc_partial (o : Opts) (g : List Nat) (hg : docGuard o.be g = true) (p : Bytes) :
+theorem C12_doc_partial (o : Opts) (g : List Nat) (hg : docGuard o g = true) (p : Bytes) :
     ∃ toks, parse o g = .ok toks ∧ GlobDoc.okGlob (docOpts o) g = true ∧
       tokMatch o toks p = GlobDoc.docMatch (docOpts o) g p := by
   unfold docGuard at hg
   rcases Bool.or_eq_true_iff.mp hg with h | h
   · rcases Bool.or_eq_true_iff.mp h with h | h
-    · exact doc_simple o g h p
-    · exact doc_okStarGlob o g h p
-  · exact doc_okClassGlob o g h p
+    · rcases Bool.or_eq_true_iff.mp h with h | h
+      · exact doc_simple o g h p
+      · exact doc_okStarGlob o g h p
+    · exact doc_okClassGlob o g h p
+  · exact doc_okAltGlob o g h p
 
 /-- the guard holds for non-trivial globs: `a*.?\*b`; without escapes `\a/?*`; `**/a*/**/b?/**`; `**`; `/**` -/
-example : docGuard true [97, 42, 46, 63, 92, 42, 98] = true ∧ docGuard false [92, 97, 47, 63, 42] = true ∧
-    docGuard true [42, 42, 47, 97, 42, 47, 42, 42, 47, 98, 63, 47, 42, 42] = true ∧
-    docGuard true [42, 42] = true ∧ docGuard true [47, 42, 42] = true ∧
+example : docGuard ⟨false, false, true, false⟩ [97, 42, 46, 63, 92, 42, 98] = true ∧
+    docGuard ⟨false, false, false, false⟩ [92, 97, 47, 63, 42] = true ∧
+    docGuard ⟨true, true, true, false⟩ [42, 42, 47, 97, 42, 47, 42, 42, 47, 98, 63, 47, 42, 42] = true ∧
+    docGuard ⟨false, false, true, false⟩ [42, 42] = true ∧ docGuard ⟨false, false, true, false⟩ [47, 42, 42] = true ∧
     -- and fails where the documentation gives no meaning: `a**b`, `**/`
-    docGuard true [97, 42, 42, 98] = false ∧ docGuard true [42, 42, 47] = false ∧
+    docGuard ⟨false, false, true, false⟩ [97, 42, 42, 98] = false ∧
+    docGuard ⟨false, false, true, false⟩ [42, 42, 47] = false ∧
     -- classes: `a[!b-d]*.[ch]`
-    docGuard true [97, 91, 33, 98, 45, 100, 93, 42, 46, 91, 99, 104, 93] = true := by
+    docGuard ⟨false, true, true, false⟩ [97, 91, 33, 98, 45, 100, 93, 42, 46, 91, 99, 104, 93] = true ∧
+    -- alternates: `*.{c,h}`
+    docGuard ⟨false, false, true, false⟩ [42, 46, 123, 99, 44, 104, 125] = true := by
   decide
 
 end RgVerif.Props.C12
